@@ -5304,7 +5304,14 @@ class _InstancePrivate:
         self.values = {} if values is None else values
 
     def __getstate__(self):
-        return {slot: getattr(self, slot) for slot in self.__slots__}
+        state = {slot: getattr(self, slot) for slot in self.__slots__}
+        # The dispatch state of the moment belongs to this object only
+        state['parameters_state'] = {
+            "BATCH_WATCH": False, "TRIGGER": False, "events": [], "watchers": []
+        }
+        state['async_refs'] = {}
+        state['syncing'] = set()
+        return state
 
     def __setstate__(self, state):
         for k, v in state.items():
